@@ -173,6 +173,59 @@ node_bare!(Node1, Node0);
 node_bare!(Node2, Node1);
 node_bare!(Node3, Node2);
 
+// deep trees: node > kids > node > ... (the intermediate element keeps a child element from being named like a member of
+// its own struct, which yaserde 0.12 cannot read); the bare twin recurses through Vec, the wrapped one through MultiRef
+#[derive(Debug, Default, Clone, PartialEq, YaSerialize, YaDeserialize)]
+#[yaserde(prefix = "p", namespaces = {"p" = "urn:zv:probe"}, rename = "node")]
+pub struct DeepB {
+    #[yaserde(attribute = true, rename = "label")]
+    pub label: String,
+    #[yaserde(prefix = "p", rename = "kids")]
+    pub kids: Option<DeepKidsB>,
+}
+#[derive(Debug, Default, Clone, PartialEq, YaSerialize, YaDeserialize)]
+#[yaserde(prefix = "p", namespaces = {"p" = "urn:zv:probe"}, rename = "kids")]
+pub struct DeepKidsB {
+    #[yaserde(prefix = "p", rename = "node")]
+    pub node: Vec<DeepB>,
+}
+#[derive(Debug, Default, Clone, YaSerialize, YaDeserialize)]
+#[yaserde(prefix = "p", namespaces = {"p" = "urn:zv:probe"}, rename = "node")]
+pub struct DeepW {
+    #[yaserde(attribute = true, rename = "label")]
+    pub label: String,
+    #[yaserde(prefix = "p", rename = "kids")]
+    pub kids: Option<DeepKidsW>,
+}
+#[derive(Debug, Default, Clone, YaSerialize, YaDeserialize)]
+#[yaserde(prefix = "p", namespaces = {"p" = "urn:zv:probe"}, rename = "kids")]
+pub struct DeepKidsW {
+    #[yaserde(prefix = "p", rename = "node")]
+    pub node: Vec<MultiRef<DeepW>>,
+}
+fn deep_b(levels: usize, width: usize) -> DeepB {
+    let mut n = DeepB { label: format!("l{levels}"), kids: None };
+    for l in (0..levels).rev() {
+        let mut kids = vec![n];
+        for w in 1..width {
+            kids.push(DeepB { label: format!("s{l}x{w}"), kids: None });
+        }
+        n = DeepB { label: format!("l{l}"), kids: Some(DeepKidsB { node: kids }) };
+    }
+    n
+}
+fn deep_w(levels: usize, width: usize) -> DeepW {
+    let mut n = DeepW { label: format!("l{levels}"), kids: None };
+    for l in (0..levels).rev() {
+        let mut kids = vec![MultiRef::new(n)];
+        for w in 1..width {
+            kids.push(MultiRef::new(DeepW { label: format!("s{l}x{w}"), kids: None }));
+        }
+        n = DeepW { label: format!("l{l}"), kids: Some(DeepKidsW { node: kids }) };
+    }
+    n
+}
+
 // holders: the same struct once with bare members, once with wrapped members
 macro_rules! holders {
     ($bare:ident, $wrapped:ident, $t:ident) => {
@@ -561,6 +614,27 @@ pub fn run() {
             let b = NodeW { tag: "b".into(), val: 2, next: Some(shared.clone()) };
             let ok = Arc::ptr_eq(&**a.next.as_ref().unwrap(), &**b.next.as_ref().unwrap()) && Arc::strong_count(&*shared) == 3;
             rec.truth("clone-shares", "self-referential", ok, "two holders of one MultiRef do not share the allocation");
+        }
+    }
+
+    // deep trees: every level is two elements; the wrapped tree must be written and read like the bare one at any depth
+    for levels in [0usize, 1, 2, 5, 15, 16, 17, 18, 31, 32, 33, 64, 100, 200] {
+        for width in [1usize, 3] {
+            let (b, w) = (deep_b(levels, width), deep_w(levels, width));
+            rec.values += 1;
+            *rec.per_probe.entry("deep-tree".to_string()).or_default() += 1;
+            let probe = format!("deep-tree:levels={}", if levels <= 18 { "<=18" } else if levels <= 33 { "19-33" } else { ">33" });
+            let bs = yaserde::ser::to_string(&b);
+            let ws = yaserde::ser::to_string(&w);
+            rec.cmp("ser-root", &probe, &rs(bs.clone()), &rs(ws));
+            if let Ok(text) = &bs {
+                let bd = yaserde::de::from_str::<DeepB>(text).map(|v| format!("{v:?}").replace("DeepKidsB", "Kids").replace("DeepB", "Node"));
+                let wd = yaserde::de::from_str::<DeepW>(text).map(|v| format!("{v:?}").replace("DeepKidsW", "Kids").replace("DeepW", "Node"));
+                if bd.is_err() && wd.is_err() {
+                    *rec.both_failed.entry(format!("de-root:{probe}")).or_default() += 1;
+                }
+                rec.cmp("de", &probe, &rs(bd), &rs(wd));
+            }
         }
     }
 
